@@ -390,3 +390,90 @@ def check_small_units():
                 out.append(dict(what='a sum of sparse operators loses a genuine small coefficient', input=dict(kind='small-units', form=form, coefficients=[a, b]), observed=float(got[0, 0]), expected=float(ref[0, 0]),
                                 signature=dict(op='small-units', where='sparse-' + form)))
     return out, n
+
+
+# ---------------------------------------------------------------------------------------------------
+# a REMAPPED block next to a block that produces a variable under the template's plain name (as in the shipped krusell_smith.remapped_dag): translating the model's
+# steady state into the remapped block's internal names must give the REMAPPED names priority over plain names that happen to coincide
+REMAP_SRC = '''import numpy as np
+from sequence_jacobian import simple
+
+@simple
+def sector(K, Z, alpha):
+    Y = Z * K ** alpha + 0.1 * Z(+1) + 0.05 * K(-1)
+    return Y
+
+@simple
+def union(Y_a, Y_b, Z_a, Z_b):
+    Y = 0.5 * (Y_a + Y_b)
+    Z = 0.5 * (Z_a + Z_b)
+    return Y, Z
+
+@simple
+def clear(Y, Ybar, K_a):
+    gap = Y - Ybar + 0.05 * (K_a - K_a(-1))
+    return gap
+
+@simple
+def sector_a(K_a, Z_a, alpha):
+    Y_a = Z_a * K_a ** alpha + 0.1 * Z_a(+1) + 0.05 * K_a(-1)
+    return Y_a
+
+@simple
+def sector_b(K_b, Z_b, alpha):
+    Y_b = Z_b * K_b ** alpha + 0.1 * Z_b(+1) + 0.05 * K_b(-1)
+    return Y_b
+'''
+
+
+def check_remap_next_to_plain(general_equilibrium=False):
+    """model with two remapped copies of one block and a block producing the plain names vs the same equations written with the new names: Jacobian, linear and nonlinear impulses
+    (general_equilibrium: solve_jacobian, solve_impulse_linear, solve_impulse_nonlinear with one unknown and target)"""
+    from sequence_jacobian import combine
+    d = os.path.join(C.WORK, 'models')
+    os.makedirs(d, exist_ok=True)
+    with open(os.path.join(d, 'verif_remap_plain.py'), 'w') as f:
+        f.write(REMAP_SRC)
+    if d not in sys.path:
+        sys.path.insert(0, d)
+    importlib.invalidate_caches()
+    sys.modules.pop('verif_remap_plain', None)
+    m = importlib.import_module('verif_remap_plain')
+    out, n, T = [], 0, 8
+    ra = m.sector.remap({'K': 'K_a', 'Z': 'Z_a', 'Y': 'Y_a'}).rename('sec_a')
+    rb = m.sector.remap({'K': 'K_b', 'Z': 'Z_b', 'Y': 'Y_b'}).rename('sec_b')
+    cal = dict(K_a=1.0, K_b=2.0, Z_a=1.0, Z_b=1.5, alpha=0.3, Ybar=0.0)
+    models = {}
+    for lab, blocks in (('remapped', [m.union, ra, m.clear, rb]), ('written with the new names', [m.union, m.sector_a, m.clear, m.sector_b])):
+        mod = combine(blocks, name='rp_' + lab[:3])
+        ss = mod.steady_state(dict(cal))
+        ss = mod.steady_state(dict(cal, Ybar=float(ss['Y'])))
+        models[lab] = (mod, ss)
+    sh = {'Z_b': 0.01 * 0.6 ** np.arange(T), 'K_b': np.r_[0.0, 0.005, np.zeros(T - 2)]}
+    quiet = lambda mod: {mod.name: dict(verbose=False)}
+    if not general_equilibrium:
+        calls = [('steady_state', lambda mod, ss: {k: np.atleast_1d(float(ss[k])) for k in ('Y_a', 'Y_b', 'Y', 'Z', 'gap')}),
+                 ('jacobian', lambda mod, ss: {f'{o}/{i}': dense(J_[o][i], T) for J_ in [mod.jacobian(ss, ['K_a', 'K_b', 'Z_a', 'Z_b'], T=T)] for o in J_.outputs for i in J_.nesteddict[o]}),
+                 ('impulse_linear', lambda mod, ss: dict(mod.impulse_linear(ss, {**sh, 'K_a': np.zeros(T)}).toplevel)),
+                 ('impulse_nonlinear', lambda mod, ss: dict(mod.impulse_nonlinear(ss, {**sh, 'K_a': np.zeros(T)}).toplevel))]
+    else:
+        calls = [('solve_jacobian', lambda mod, ss: {f'{o}/{i}': dense(G_[o][i], T) for G_ in [mod.solve_jacobian(ss, ['K_a'], ['gap'], ['Z_b', 'K_b'], T=T)] for o in G_.outputs for i in G_.nesteddict[o]}),
+                 ('solve_impulse_linear', lambda mod, ss: dict(mod.solve_impulse_linear(ss, ['K_a'], ['gap'], sh).toplevel)),
+                 ('solve_impulse_nonlinear', lambda mod, ss: dict(mod.solve_impulse_nonlinear(ss, ['K_a'], ['gap'], sh, options=quiet(mod)).toplevel))]
+    for label, f in calls:
+        n += 1
+        inp = dict(kind='remap-next-to-plain', call=label, general_equilibrium=bool(general_equilibrium))
+        try:
+            want = f(*models['written with the new names'])
+        except Exception as ex:
+            out.append(dict(what=f'remap-next-to-plain probe: the reference model failed in {label}: {type(ex).__name__}: {ex}', input=inp, signature=dict(op='raise')))
+            continue
+        try:
+            got = f(*models['remapped'])
+            bad = [k for k in want if k not in got or np.shape(got[k]) != np.shape(want[k]) or np.abs(np.asarray(got[k]) - np.asarray(want[k])).max() > 1e-9]
+        except Exception as ex:
+            bad = [f'raised {type(ex).__name__}: {str(ex)[:120]}']
+        if bad:
+            out.append(dict(what='a model with remapped blocks next to a block producing the template\'s plain names does not behave like the same equations written with the new names', input=inp, observed=bad[:5],
+                            signature=dict(op='remap-next-to-plain', call=label)))
+    return out, n
